@@ -144,7 +144,7 @@ def _compile_init(names: list[str], defaults: dict[str, Any]) -> types.CodeType:
     :return: the compiled code object
     :rtype: code
     """
-    arg_list = ", ".join((f"{name}={defaults.get(name)}" if name in defaults else name) for name in names)
+    arg_list = ", ".join((f"{name}={defaults.get(name)!r}" if name in defaults else name) for name in names)
     setters = "\n    ".join([f"self.{name} = {name}" for name in names])
     f_code = f"""
 def __init__(self, {arg_list}):
